@@ -4,3 +4,4 @@ import Pw.Props.C20
 import Pw.Props.C10
 import Pw.Props.C03
 import Pw.Props.C08
+import Pw.Props.C05
